@@ -4,7 +4,14 @@ namespace Xmp.Tick
 open Xmp.Gen.PlayerConsts
 
 theorem minTicks_eq : minTicks = 8 := by decide
+/-- all three caps are `XMP_MAX_FRAMESIZE / 4` frames with the divisors the C has now (generated from src/mixer.c and
+src/control.c): a divisor below 4 in either place of `libxmp_mixer_prepare` makes these fail, and with them
+`C16_ticksize` / `C16_framesize_bound` -/
 theorem capTicks_eq : capTicks = 6146 := by decide
+theorem capSetTicks_eq : capSetTicks = 6146 := by decide
+theorem capFactorTicks_eq : capFactorTicks = 6146 := by decide
+/-- four bytes (a 16-bit stereo frame) times the substituted and the tested cap fit `XMP_MAX_FRAMESIZE` -/
+theorem cap_bytes : capTicks * 4 ≤ maxFramesize ∧ capSetTicks * 4 ≤ maxFramesize ∧ capFactorTicks ≤ capTicks := by decide
 
 /-- `libxmp_mixer_get_ticksize` answers −1 or at least `1 << ANTICLICK_SHIFT` frames -/
 theorem getTicksize_range (freq tfN tfD rrN rrD bpm : Int) :
@@ -24,7 +31,7 @@ theorem prepare_range (freq tfN tfD rrN rrD bpm : Int) :
   simp only
   have h := getTicksize_range freq tfN tfD rrN rrD bpm
   rw [minTicks_eq] at *
-  rw [capTicks_eq]
+  rw [capTicks_eq, capSetTicks_eq]
   split <;> omega
 
 theorem frameBytes_cases (mono bit8 : Bool) : frameBytes mono bit8 = 1 ∨ frameBytes mono bit8 = 2 ∨ frameBytes mono bit8 = 4 := by
